@@ -1,5 +1,6 @@
 import WebPkg.Proofs.SxgVerify
 import WebPkg.Proofs.Mice
+import WebPkg.Proofs.SxgInjective
 /-
   C01 — A verified signed exchange is exactly what the key holder signed.
   Signature unforgeability and hash collision resistance are never assumed inside a theorem:
@@ -59,5 +60,48 @@ theorem verified_policy (env : Env) (e : Exchange) (t : GoTime.T) (p : Bytes) (h
     (e.version = .b3 → isCacheable env e = true ∧ joined e.respHeaders hContentType ≠ []) := by
   obtain ⟨_, _, _, _, s, _, ha⟩ := verify_checked env e t p h
   exact ⟨ha.headers, ha.method, fun hb => ⟨ha.cacheable hb, ha.contentType hb⟩⟩
+
+/-- T2 (the message determines what was signed, b2/b3): two exchanges / parameter sets with the same signed
+    message have the same version, cert hash, validity URL, date, expires, request URL and header block.
+    (Length and int64 range hypotheses always hold for Go values.) -/
+theorem signedMessage_injective (e₁ e₂ : Exchange) (h1 : e₁.version ≠ .b1) (h2 : e₂.version ≠ .b1)
+    (c₁ c₂ v₁ v₂ : Bytes) (d₁ x₁ d₂ x₂ : Int) (hc1 : c₁.length = 32) (hc2 : c₂.length = 32) (m : Bytes)
+    (hv1 : v₁.length < 2 ^ 64) (hv2 : v₂.length < 2 ^ 64)
+    (hu1 : e₁.uri.length < 2 ^ 64) (hu2 : e₂.uri.length < 2 ^ 64)
+    (hd1 : d₁ < 2 ^ 64) (hd2 : d₂ < 2 ^ 64) (hx1 : x₁ < 2 ^ 64) (hx2 : x₂ < 2 ^ 64)
+    (hm1 : signedMessage e₁ (some c₁) v₁ d₁ x₁ = some m) (hm2 : signedMessage e₂ (some c₂) v₂ d₂ x₂ = some m) :
+    e₁.version = e₂.version ∧ c₁ = c₂ ∧ v₁ = v₂ ∧ d₁ = d₂ ∧ x₁ = x₂ ∧ e₁.uri = e₂.uri ∧
+      encodeExchangeHeaders e₁ = encodeExchangeHeaders e₂ :=
+  signedMessage_b23_injective e₁ e₂ h1 h2 c₁ c₂ v₁ v₂ d₁ x₁ d₂ x₂ hc1 hc2 m hv1 hv2 hu1 hu2 hd1 hd2 hx1 hx2 hm1 hm2
+
+/-- T2': equal b3 header blocks carry the same (name, value) entries (status and every header field) -/
+theorem headers_determined_b3 (e₁ e₂ : Exchange) (hv1 : e₁.version = .b3) (hv2 : e₂.version = .b3)
+    (hw1 : ∀ p ∈ responseEntries e₁, BstrEntry p) (hw2 : ∀ p ∈ responseEntries e₂, BstrEntry p)
+    (hn1 : (responseEntries e₁).length < 2 ^ 64) (hn2 : (responseEntries e₂).length < 2 ^ 64)
+    (h : encodeExchangeHeaders e₁ = encodeExchangeHeaders e₂) (hdr : Bytes) (hok : encodeExchangeHeaders e₁ = .ok hdr) :
+    (responseEntries e₁).Perm (responseEntries e₂) :=
+  encodeExchangeHeaders_b3_perm e₁ e₂ hv1 hv2 hw1 hw2 hn1 hn2 h hdr hok
+
+/-- T3 (corollary under an explicit unforgeability hypothesis): let `Signed` be the set of messages the key
+    holder of certificate `c` actually signed and assume `hEUF`: `sigVerify` under `c` accepts only those.
+    If a b2/b3 exchange `e'` verifies at time `t` through certificate `main = c`, then the key holder signed a
+    message built from an exchange with the same version, URL, header block, the signature's own validity URL /
+    date / expires, `t` lies in that window, and the returned payload is the one the signed digest commits to
+    (T1b). No tampering that changes any of these verifies. -/
+theorem verify_sound_euf (env : Env) (e' : Exchange) (t : GoTime.T) (p : Bytes) (hv : e'.version ≠ .b1)
+    (Signed : Bytes → Bytes → Prop)                       -- Signed certDer msg
+    (hEUF : ∀ c m s, env.sigVerify c m s = true → Signed c m)
+    (h : verify env e' t = some p) :
+    ∃ (s : Signature) (main : CertChain.AugCert) (msg : Bytes),
+      Signed main.cert msg ∧ s.certSha256 = env.H main.cert ∧ timestampsOk s t = true ∧
+      signedMessage e' (some (env.H main.cert)) s.validityUrl s.date s.expires = some msg ∧
+      verifyPayload env e' s = some p := by
+  obtain ⟨_, _, _, _, s, _, ha⟩ := verify_checked env e' t p h
+  obtain ⟨_, main, _, _, _, _, hsha, msg, hmsg, hsig⟩ := ha.chain
+  exact ⟨s, main, msg, hEUF _ _ _ hsig, hsha, ha.time, hmsg, ha.payload⟩
+
+/-! non-vacuity of hEUF: a toy scheme where the only accepted signature of `m` is `m` itself, and `Signed` = everything verified -/
+example : ∃ (sv : Bytes → Bytes → Bytes → Bool) (Signed : Bytes → Bytes → Prop), ∀ c m s, sv c m s = true → Signed c m :=
+  ⟨fun _ m s => m == s, fun _ _ => True, fun _ _ _ _ => trivial⟩
 
 end WebPkg.C01
